@@ -212,6 +212,17 @@ impl Run {
 
   /// Write evidence, replay files, print verdict lines, return exit code.
   pub fn finish(&self) -> i32 {
+    if std::env::var("VERIF_REPLAY_MODE").is_ok() {
+      // replay: report what the re-run found, write nothing
+      let viol = self.violations.lock().unwrap();
+      for (sig, (count, v)) in viol.iter() {
+        println!("  !! {} x{}: {}", sig, count, v.message);
+      }
+      if viol.is_empty() {
+        println!("  no violation on replay");
+      }
+      return if viol.is_empty() { 0 } else { 1 };
+    }
     let root = verif_root();
     let known = load_known(&root);
     let viol = self.violations.lock().unwrap();
